@@ -17,6 +17,7 @@ import py2enc
 import vlib
 
 GEN = os.path.join(vlib.COQ, "Run", "out", "gen")
+ALL = py2enc.ENCODERS + py2enc.VALUE_FNS
 
 
 def _coqc(cwd, fn):
@@ -25,7 +26,7 @@ def _coqc(cwd, fn):
 
 
 def eq_file(names):
-    out = ["From Coq Require Import String.", "From AV Require Import Base.Util Model.Prim Model.EncDSL Model.EncAst.",
+    out = ["From Coq Require Import String.", "From AV Require Import Base.Util Model.Prim Model.EncDSL Model.EncDSLV Model.EncAst.",
            "From C04Gen Require Import EncGen.", ""]
     for fn in names:
         n = fn.lstrip("_")
@@ -37,16 +38,15 @@ def check(repo):
     """-> dict(status = {encoder: status}, notes = {encoder: [...]}, dir = scratch dir, intact = [...])"""
     res = py2enc.translate_repo(repo)
     status, notes = {}, {}
-    for fn in py2enc.ENCODERS:
+    for fn in ALL:
         r = res[fn]
         if r[0] == "ok":
             notes[fn] = r[3]
         else:
             status[fn] = "refused: " + re.sub(r" \(line [0-9?]+\)$", "", r[1])
     text = py2enc.emit_gallina(res)
-    translated = [fn for fn in py2enc.ENCODERS if res[fn][0] == "ok"]
-    h = hashlib.sha1((text + open(os.path.join(vlib.COQ, "Model", "EncAst.v")).read()
-                      + open(os.path.join(vlib.COQ, "Model", "EncDSL.v")).read()).encode()).hexdigest()[:16]
+    translated = [fn for fn in ALL if res[fn][0] == "ok"]
+    h = hashlib.sha1((text + "".join(open(os.path.join(vlib.COQ, "Model", f)).read() for f in ("EncAst.v", "EncDSL.v", "EncDSLV.v"))).encode()).hexdigest()[:16]
     d = os.path.join(GEN, "c04-" + h)
     os.makedirs(d, exist_ok=True)
     cache = os.path.join(d, "status.json")
